@@ -61,6 +61,8 @@ class Ctl:
         self.extra = {}
         self.stall_timeout = 20
         self.crash = None
+        self.iofault = None      # k: the k-th HDF5 operation of the run fails with OSError (disk full)
+        self.h5count = 0
         self.session = 0
 
     # ---- entity side
@@ -106,6 +108,12 @@ class Ctl:
             if e.state == "killed":
                 raise StopSim()
             e.state = "running"
+        if self.iofault and isinstance(label, tuple) and label and label[0] == "h5":
+            self.h5count += 1
+            if self.h5count == self.iofault:
+                with self.cv:
+                    self.log.append(([], e.name, ("iofault", e.name)))
+                raise OSError(28, "No space left on device (injected)")
 
     def kill_all(self):
         """the submitting process dies: every entity of the current session stops here"""
@@ -187,6 +195,14 @@ class Ctl:
                 pick.granted = True
                 pick.state = "running"
                 self.cv.notify_all()
+            # the final observation is taken here, before the parked threads are released: they
+            # unwind through the code under test (finally blocks, __del__) once `stopped` is set
+            if getattr(self, "capture", None):
+                try:
+                    self.capture()
+                except Exception:  # noqa
+                    import traceback as _tb
+                    self.extra["capture_error"] = _tb.format_exc()
             self.stopped = True
             self.cv.notify_all()
 
